@@ -43,7 +43,8 @@ class CHECK(FloCheck):
     RULE = ("generated FloScript programs: floeng.gen_guards (let guards at several depths on clock-driven shares that "
             "flip at chosen ticks, guarded targets of go, `is updated` / `is changed` conditions (with/without `in frame`) on 30 % "
             "of the transitions and conditional-aux clauses, plain and conditional auxiliaries with guarded first frames, an "
-            "original auxiliary named by two frames, inactive framers started later) 60 %, gen_susp 25 %, gen_program "
+            "original auxiliary named by two frames, also through an auxiliary's own frame (10 % of the main framers: z named "
+            "by a frame and by the first frame of that outline's other auxiliary y), inactive framers started later) 60 %, gen_susp 25 %, gen_program "
             "15 %; 4-14 ticks. Non-trivial = a transition is taken, an auxiliary entered or a start/transition refused; "
             "distinct by program")
     TRUSTED = ["correspondence: real Builder + Skedder vs the Lean interpreter (engine 'flo'): recorder events, per-tick "
